@@ -304,6 +304,15 @@ def r_schema(model, rep, qname, floor_keys):
                                 and g[1] is True and x[2][0] in (("const", k), s[0][1]):
                             rep.ob("R-SCHEMA", "%s:probe:%s" % (qname, k), False, site="%s:%s" % (cls.module.rel(), r.ev.lineno),
                                    msg="has_option(%s, %s): section and option are swapped" % (T.show(x[2][0]), T.show(x[2][1])))
+                if len(s[0]) == 2 and s[1] != "soft":
+                    direct = [facts.canon_guard_pair(g) for g in rguards]
+                    direct = [g for g in direct if g[1] and g[0][0] == "call" and g[0][1][0] == "attr" and g[0][1][2] == "has_option" and len(g[0][2]) == 2]
+                    same_sec = [g for g in direct if (T.show(g[0][2][0]) == T.show(s[0][0]) or wcx.norm(g[0][2][0]) == s[0][0])
+                                and g[0][2][1][0] == "const"]
+                    if same_sec and not any(g[0][2][1] == ("const", k) for g in same_sec):
+                        rep.ob("R-SCHEMA", "%s:probe:%s" % (qname, k), False, site="%s:%s" % (cls.module.rel(), r.ev.lineno),
+                               msg="option %r is read when option %s of the same section exists: its own presence is never probed" % (
+                                   k, T.show(same_sec[0][0][2][1])))
                 if conditional:
                     okc = s[1] == "soft" or guarded_read
                     rep.ob("R-SCHEMA", "%s:optional:%s" % (qname, k), okc, site="%s:%s" % (cls.module.rel(), r.ev.lineno),
